@@ -2,6 +2,7 @@
 
 Nothing in this file imports the library under test.
 """
+import collections.abc
 import dataclasses
 import enum
 import hashlib
@@ -82,7 +83,7 @@ def _enc(h, v):
     h.update(a.tobytes())
   elif np is not None and isinstance(v, np.generic):
     _enc(h, np.asarray(v))
-  elif isinstance(v, dict):
+  elif isinstance(v, collections.abc.Mapping):   # dict, MappingProxyType, ...
     h.update(b'D' + str(len(v)).encode() + b'{')
     items = []
     for k, x in v.items():
@@ -132,7 +133,7 @@ def jcanon(v):
   """JSON-able canonical form (enum -> value, tuple -> list)."""
   if isinstance(v, enum.Enum):
     return v.value
-  if isinstance(v, dict):
+  if isinstance(v, collections.abc.Mapping):
     return {str(jcanon(k)): jcanon(x) for k, x in v.items()}
   if isinstance(v, (list, tuple)):
     return [jcanon(x) for x in v]
